@@ -114,11 +114,22 @@ def objects(draw, max_sections=5):
         si = draw(st.integers(1, nsec))
         size = len(expand(sections[si - 1][1]))
         symbols.append([f"sym{q}", si, draw(st.integers(0, max(0, size - 1))), draw(st.sampled_from(["func", "func", "func", "object"]))])
-    return {"bits": bits, "sections": sections, "symbols": symbols}
+    desc = {"bits": bits, "sections": sections, "symbols": symbols}
+    if draw(st.integers(0, 5)) == 0:
+        # cosmetic metadata objdump complains about on stderr ("warning: ... corrupt GNU_PROPERTY_TYPE") while it still exits 0
+        # and prints the complete disassembly
+        desc["bad_note"] = draw(st.sampled_from(["corrupt-size", "short", "unsupported-type"]))
+    return desc
 
 
 def build_object(desc):
+    import struct
+
     from .elfw import make_elf
 
     secs = [(nm, expand(chunks), ex) for nm, chunks, ex in desc["sections"]]
+    if desc.get("bad_note"):
+        d = {"corrupt-size": struct.pack("<II", 0xC0000002, 8) + b"\x03\0\0\0", "short": b"\x01\x02\x03",
+             "unsupported-type": struct.pack("<II", 5, 4) + b"\1\0\0\0\0\0\0\0"}[desc["bad_note"]]
+        secs.append((".note.gnu.property", struct.pack("<III", 4, len(d), 5) + b"GNU\0" + d, False, 7))
     return make_elf(secs, [tuple(s) for s in desc["symbols"]], bits=desc["bits"])
